@@ -43,6 +43,15 @@ CHECKS = {
         "are wired back to back, and random histories with truncated/bit-flipped datagrams are recorded; TLC judges every step.",
         "Sent datagrams are classified structurally by the harness; damaged datagrams are judged only on never-raises and heartbeat clauses; periodic_maintenance (timer coroutine) not modelled.",
     ),
+    "C18": (
+        "DESIGN.md 5/C18",
+        "TLC exhaustive bounded models of the P2P (on the storage spec) and RDAC handlers + edge replay on the real handlers with a recording transport + TLC trace validation",
+        "TLC explores all interleavings of datagrams from 3 peers (P2P: 10 datagram classes + operator configuration, RDAC: every step "
+        "reachable within the bound, 11 datagram classes) against the property monitors; every explored edge is replayed on the real "
+        "P2PDatagramProtocol / RDACDatagramProtocol, random histories up to 150 datagrams are recorded, and TLC judges every step "
+        "(who is served, destinations, rejects, registration flags, step dictionary, completion callbacks).",
+        "SNMP read stubbed; sent datagrams classified structurally by the harness; raising on malformed datagrams is outside the statement.",
+    ),
 }
 
 NOT_YET = {}
